@@ -142,6 +142,9 @@ def _min(I, args, kw):
 
 @model('builtins.max')
 def _max(I, args, kw):
+    r = hook('max_', I, args)
+    if r is not None:
+        return r
     if all(isinstance(a, str) for a in args) and args:
         return max(args)
     return _minmax(I, args, kw, sym.max_)
